@@ -24,6 +24,83 @@ ROOTS = {
 }
 
 
+def urlopen_translation(ctx):
+    """For each low-level root raised by the request step of HTTPConnectionPool.urlopen: the outcomes that let it escape
+    untranslated, and the classes of the errors handed to Retry.increment(error=...) with the state of the path.
+    Shared by C01-R8 and C04-R13; computed once per check."""
+    cache = ctx.__dict__.setdefault("_urlopen_translation", {})
+    if "table" in cache:
+        return cache["fi"], cache["table"]
+    m = ctx.model
+    from .c01 import LeaseRule, queue_field, _hot_methods
+    from ..interp import Budget, Interp, State, compute_relevant
+
+    class TransRule(LeaseRule):
+        def __init__(self, qf, root):
+            super().__init__(qf)
+            self.root = root
+            self.errors = []
+
+        def call(self, it, st, node, recv, pos, kw):
+            t = ast.unparse(node.func)
+            if t == "self._make_request":
+                s = st.copy()
+                s.log(node, f"_make_request raises {self.root}")
+                s.ts["rootfault"] = True
+                outs = [Out("raise", s, exc(self.root))]
+                s2 = st.copy()
+                s2.ts["exchange"] = "ok"
+                outs.append(Out("normal", s2, AV("obj", "response", truth=True, none=False)))
+                return outs
+            if t.endswith(".increment") and "error" in kw:
+                self.errors.append((st.view(kw["error"]), st))
+                s = st.copy()
+                return [Out("normal", s, AV("unk", truth=True, none=False)), Out("raise", st.copy(), exc("urllib3.exceptions.MaxRetryError"))]
+            if t in ("self._get_conn",):
+                return [Out("normal", st, AV("obj", "fresh", truth=True, none=False, typ=f"{CN}.HTTPConnection"))]
+            q = it.resolve_callee(node, recv)
+            if q and it.m.is_exception_class(q):
+                return [Out("normal", st, AV("exc", it.m.norm(q), truth=True, none=False))]
+            if t == "_wrap_proxy_error":
+                return [Out("normal", st, AV("exc", "urllib3.exceptions.ProxyError", truth=True, none=False))]
+            if t == "self.urlopen":
+                return super().call(it, st, node, recv, pos, kw)
+            if q in it.inline:
+                return None  # an unmodelled private helper of the pool (e.g. an extracted error-translation step): interpreted in place
+            return [Out("normal", st, UNK)]
+
+    qf = queue_field(m)
+    modelled_r8 = {"_make_request", "_get_conn", "_put_conn", "_new_conn", "_prepare_proxy", "_validate_conn", "_get_timeout", "_raise_timeout", "urlopen", "_close_pool_connections"}
+    helpers_r8 = set()
+    for c_ in m.mro(f"{CP}.HTTPConnectionPool"):
+        ci_ = m.classes.get(c_)
+        if ci_ is None or not c_.startswith("urllib3."):
+            continue
+        for n_, f_ in ci_.methods.items():
+            if n_.startswith("_") and not n_.startswith("__") and n_ not in modelled_r8:
+                helpers_r8.add(f_.qual)
+    for f_ in m.repo_funcs():
+        if f_.module == CP and f_.cls is None and f_.name.startswith("_") and f_.name not in modelled_r8:
+            helpers_r8.add(f_.qual)
+    cls_q = f"{CP}.HTTPConnectionPool"
+    fi = m.method(cls_q, "urlopen")
+    table = []
+    for root, reason in ROOTS.items():
+        rule = TransRule(qf, m.norm(root))
+        it = Interp(m, rule, cls_q, fi.module, frozenset(helpers_r8), budget=Budget(400000))
+        it.relevant = None  # track everything: local names are not part of the rule
+        st = State()
+        for a in fi.node.args.args[1:] + fi.node.args.kwonlyargs:
+            st.env[it.var(a.arg)] = AV("unk", sym=f"param:{a.arg}")
+        outs = it.exec_block(fi.node.body, [st])
+        ctx.states += it.budget.steps
+        escaped = [o for o in outs if o.kind == "raise" and o.st.ts.get("rootfault") and o.val.val == m.norm(root)]
+        errs = [((av.val if av.kind == "exc" else av.typ), s_) for av, s_ in rule.errors]
+        table.append((root, escaped, errs))
+    cache["fi"], cache["table"] = fi, table
+    return fi, table
+
+
 def _resp_seeds():
     return {
         ("self", "_pool"): AV("unk", sym="f:_pool"),
@@ -335,82 +412,21 @@ def run(ctx):
 
     # ------------------------------------------------------------------ R8
     R8 = ctx.rule("C01-R8", "translation coverage in urlopen: every low-level root raised by a request step is caught and what reaches Retry.increment(error=...) is a urllib3 HTTPError", "E1 lattice + E4 on the handlers")
-    from .c01 import LeaseRule, queue_field, _hot_methods
-    from ..interp import Budget, Interp, State, compute_relevant
-
-    class TransRule(LeaseRule):
-        def __init__(self, qf, root):
-            super().__init__(qf)
-            self.root = root
-            self.errors = []
-
-        def call(self, it, st, node, recv, pos, kw):
-            t = ast.unparse(node.func)
-            if t == "self._make_request":
-                s = st.copy()
-                s.log(node, f"_make_request raises {self.root}")
-                s.ts["rootfault"] = True
-                outs = [Out("raise", s, exc(self.root))]
-                s2 = st.copy()
-                s2.ts["exchange"] = "ok"
-                outs.append(Out("normal", s2, AV("obj", "response", truth=True, none=False)))
-                return outs
-            if t.endswith(".increment") and "error" in kw:
-                self.errors.append((st.view(kw["error"]), st))
-                s = st.copy()
-                return [Out("normal", s, AV("unk", truth=True, none=False)), Out("raise", st.copy(), exc("urllib3.exceptions.MaxRetryError"))]
-            if t in ("self._get_conn",):
-                return [Out("normal", st, AV("obj", "fresh", truth=True, none=False, typ=f"{CN}.HTTPConnection"))]
-            q = it.resolve_callee(node, recv)
-            if q and it.m.is_exception_class(q):
-                return [Out("normal", st, AV("exc", it.m.norm(q), truth=True, none=False))]
-            if t == "_wrap_proxy_error":
-                return [Out("normal", st, AV("exc", "urllib3.exceptions.ProxyError", truth=True, none=False))]
-            if t == "self.urlopen":
-                return super().call(it, st, node, recv, pos, kw)
-            if q in it.inline:
-                return None  # an unmodelled private helper of the pool (e.g. an extracted error-translation step): interpreted in place
-            return [Out("normal", st, UNK)]
-
-    qf = queue_field(m)
-    modelled_r8 = {"_make_request", "_get_conn", "_put_conn", "_new_conn", "_prepare_proxy", "_validate_conn", "_get_timeout", "_raise_timeout", "urlopen", "_close_pool_connections"}
-    helpers_r8 = set()
-    for c_ in m.mro(f"{CP}.HTTPConnectionPool"):
-        ci_ = m.classes.get(c_)
-        if ci_ is None or not c_.startswith("urllib3."):
-            continue
-        for n_, f_ in ci_.methods.items():
-            if n_.startswith("_") and not n_.startswith("__") and n_ not in modelled_r8:
-                helpers_r8.add(f_.qual)
-    for f_ in m.repo_funcs():
-        if f_.module == CP and f_.cls is None and f_.name.startswith("_") and f_.name not in modelled_r8:
-            helpers_r8.add(f_.qual)
-    for cls_q in (f"{CP}.HTTPConnectionPool",):
-        fi = m.method(cls_q, "urlopen")
-        for root, reason in ROOTS.items():
-            rule = TransRule(qf, m.norm(root))
-            it = Interp(m, rule, cls_q, fi.module, frozenset(helpers_r8), budget=Budget(400000))
-            it.relevant = None  # track everything: local names are not part of the rule
-            st = State()
-            for a in fi.node.args.args[1:] + fi.node.args.kwonlyargs:
-                st.env[it.var(a.arg)] = AV("unk", sym=f"param:{a.arg}")
-            outs = it.exec_block(fi.node.body, [st])
-            ctx.states += it.budget.steps
-            short = root.rsplit(".", 1)[-1]
-            escaped = [o for o in outs if o.kind == "raise" and o.st.ts.get("rootfault") and o.val.val == m.norm(root)]
-            ctx.ob(R8, fi.qual, f"root {short} is caught by a handler around the request", not escaped,
-                   "" if not escaped else f"a raw {short} from a request step leaves urlopen untranslated", witness=escaped[0].st.witness() if escaped else None, node=fi.node)
-            if not rule.errors:
-                ctx.ob(R8, fi.qual, f"root {short} reaches Retry.increment(error=...)", False, "no increment(error=...) call was reached with this root", node=fi.node)
-            seen = set()
-            for av, s in rule.errors:
-                q = av.val if av.kind == "exc" else av.typ
-                if q in seen:
-                    continue
-                seen.add(q)
-                ok = q is not None and m.issub(q, HTTPERR)
-                ctx.ob(R8, fi.qual, f"root {short} -> increment(error={str(q).rsplit('.', 1)[-1]})", ok,
-                       "" if ok else "the error handed to the retry policy (and re-raised / wrapped by it) is not a urllib3 exception", witness=s.witness(), node=fi.node)
+    fi, table = urlopen_translation(ctx)
+    for root, escaped, errs in table:
+        short = root.rsplit(".", 1)[-1]
+        ctx.ob(R8, fi.qual, f"root {short} is caught by a handler around the request", not escaped,
+               "" if not escaped else f"a raw {short} from a request step leaves urlopen untranslated", witness=escaped[0].st.witness() if escaped else None, node=fi.node)
+        if not errs:
+            ctx.ob(R8, fi.qual, f"root {short} reaches Retry.increment(error=...)", False, "no increment(error=...) call was reached with this root", node=fi.node)
+        seen = set()
+        for q, s in errs:
+            if q in seen:
+                continue
+            seen.add(q)
+            ok = q is not None and m.issub(q, HTTPERR)
+            ctx.ob(R8, fi.qual, f"root {short} -> increment(error={str(q).rsplit('.', 1)[-1]})", ok,
+                   "" if ok else "the error handed to the retry policy (and re-raised / wrapped by it) is not a urllib3 exception", witness=s.witness(), node=fi.node)
 
     # ------------------------------------------------------------------ R9
     R9 = ctx.rule("C01-R9", "every handler whose type admits KeyboardInterrupt (bare / BaseException) re-raises on all its paths", "E8")
@@ -525,3 +541,78 @@ def run(ctx):
         raise AnalysisError("stdlib http.client.HTTPConnection.close not found")
     txt = astq.text(hc.node)
     ctx.ob(R11, hc.qual, "stdlib close() closes the socket and the pending response (source fact)", "sock.close()" in txt and "response.close()" in txt)
+
+
+    # ------------------------------------------------------------------ R12 sockets created by urllib3 itself
+    R12 = ctx.rule("C01-R12", "a socket urllib3 creates is closed on every path on which it is not handed to the caller: in every function that calls socket.socket(), each exceptional exit and each further loop iteration happens with the socket closed, and a normal return leaves open only the socket it returns (helpers that configure the socket are interpreted in place)", "E4 typestate")
+    creators = []
+    for f_ in m.repo_funcs():
+        if "emscripten" in f_.module or "contrib" in f_.module:
+            continue
+        for c_ in astq.calls(f_.node):
+            if m.resolve_name(f_.module, c_.func) == "socket.socket":
+                creators.append(f_)
+                break
+    ctx.sites(R12, len(creators), 1, "functions that create a socket")
+
+    class SockRule(BaseRule):
+        def __init__(self):
+            self.leaks = []
+
+        def call(self, it, st, node, recv, pos, kw):
+            f = node.func
+            q = it.m.resolve_name(it.module, f) if isinstance(f, (ast.Name, ast.Attribute)) and recv is None or (recv is not None and recv.kind != "obj") else None
+            if q == "socket.socket":
+                sid = f"sock@{node.lineno}"
+                opened = st.ts.get("open", frozenset())
+                if sid in opened:
+                    self.leaks.append((st, node, f"a new socket is created at line {node.lineno} while the one created there before is still open"))
+                s = st.copy()
+                s.ts["open"] = opened | {sid}
+                s.ts["made"] = True
+                s.log(node, f"socket created ({sid})")
+                s2 = st.copy()
+                s2.log(node, "socket() raises OSError")
+                return [Out("normal", s, AV("obj", sid, truth=True, none=False, sym=f"obj:{sid}")), Out("raise", s2, exc("builtins.OSError"))]
+            if recv is not None and recv.kind == "obj" and isinstance(recv.val, str) and recv.val.startswith("sock@") and isinstance(f, ast.Attribute):
+                if f.attr == "close":
+                    s = st.copy()
+                    s.ts["open"] = s.ts.get("open", frozenset()) - {recv.val}
+                    s.log(node, f"{recv.val} closed")
+                    return [Out("normal", s, const(None))]  # A3: close() used as cleanup does not raise
+                s = st.copy()
+                s2 = st.copy()
+                s2.log(node, f"{recv.val}.{f.attr} raises OSError")
+                return [Out("normal", s, UNK), Out("raise", s2, exc("builtins.OSError"))]
+            if it.resolve_callee(node, recv) in it.inline:
+                return None
+            if isinstance(f, ast.Attribute) and f.attr == "getaddrinfo":
+                s2 = st.copy()
+                s2.log(node, "getaddrinfo raises")
+                return [Out("normal", st, UNK), Out("raise", s2, exc("builtins.OSError"))]
+            return [Out("normal", st, UNK)]
+
+    for f_ in creators:
+        rule = SockRule()
+        inl = set(helper_closure(m, [f_])) - {f_.qual}
+        outs, it = run_function(m, f_, rule, f_.clsq if f_.cls else None, inline=inl)
+        ctx.states += it.budget.steps
+        made = [o for o in outs if o.st.ts.get("made")]
+        ctx.sites(R12, len(made), 1, f"exits of {f_.name} after a socket was created")
+        seen12 = set()
+        for st_, node_, why_ in rule.leaks:
+            if why_ in seen12:
+                continue
+            seen12.add(why_)
+            ctx.ob(R12, f_.qual, "the socket of one attempt is closed before the next attempt", False, why_, witness=st_.witness(), node=node_)
+        for o in outs:
+            opened = set(o.st.ts.get("open", frozenset()))
+            if o.kind == "return" and o.val is not None and o.val.kind == "obj":
+                opened.discard(o.val.val)
+            k_ = (o.kind, tuple(sorted(opened)))
+            if k_ in seen12:
+                continue
+            seen12.add(k_)
+            ok = not opened
+            ctx.ob(R12, f_.qual, f"exit {outcome_name(o)}: no socket created here is left open (other than the one returned)", ok,
+                   "" if ok else f"{sorted(opened)} is still open when the function is left by {outcome_name(o)}: the descriptor stays open for as long as the exception (or nothing at all) references it", witness=o.st.witness(), node=f_.node)
